@@ -32,7 +32,11 @@ func readRoot(parts ...string) *boc.Cell {
 	return roots[0]
 }
 
-func goProof(a []string) (res string) {
+func goProof(a []string) string {
+	return retrySlow(func() string { return goProofOnce(a) })
+}
+
+func goProofOnce(a []string) (res string) {
 	tab := h.ParseTable(a[1])
 	cells := h.BuildCells(tab)
 	ncells, size := unfolded(tab)
